@@ -217,10 +217,32 @@ func body(c *kernel.Ctx) {
 
 	// ---- phase 2: enumerate at the passive target ------------------------------------------
 	tn := cl.Nodes[target]
+	stallNext, stallsLeft := false, 5
 	deliver := func(from peer.ID, raw []byte) (dInst, dQueued int) {
 		i0, q0 := tn.Cons.VerifQueued()
-		ch := cl.Net.Inject(from, cl.PeerIDs[target], protoQBFT, raw, time.Duration(verifrt.Intn("n", 5))*time.Millisecond)
+		delay := time.Duration(verifrt.Intn("n", 5)) * time.Millisecond
+		ch := cl.Net.Inject(from, cl.PeerIDs[target], protoQBFT, raw, delay)
+		stalled := stallNext
+		if stallNext {
+			// the target node stalls (GC pause, starved host) at a random point of receiving and handling
+			// the message, for longer than the receive timeout: an expired receive context must not let
+			// an unverified message or justification through
+			stallNext = false
+			steps := verifrt.Intn("f", 16)
+			verifrt.Go(func() {
+				if delay > 0 {
+					verifrt.Sleep(delay)
+				}
+				for k := 0; k < steps; k++ {
+					verifrt.Yield()
+				}
+				verifrt.Stall(tn.Tag, 7*time.Second)
+			})
+		}
 		verifrt.RecvTimeout(ch, nil, 20*time.Second) // handler returned (receive timeout is 5s)
+		if stalled {
+			verifrt.Sleep(8 * time.Second) // the stall may have begun after this handler returned: let it pass
+		}
 		i1, q1 := tn.Cons.VerifQueued()
 		return i1 - i0, q1 - q0
 	}
@@ -275,6 +297,11 @@ func body(c *kernel.Ctx) {
 			verifrt.Fault("alt")
 			total++
 			c.State(hashStr(typeName(m) + "|" + a.class))
+			// mostly where an expired context matters most: messages whose justifications are altered
+			if stallsLeft > 0 && (strings.HasPrefix(a.class, "just") && verifrt.Intn("f", 8) == 7 || verifrt.Intn("f", 100) == 99) {
+				stallNext = true
+				stallsLeft-- // few per run: the enumeration must end well before the duty's deadline
+			}
 			di, dq := deliver(src, raw)
 			if di != 0 || dq != 0 {
 				c.Violate("C05", "accepted-altered", typeName(m)+"/"+a.class, "altered %s (%s) changed consensus state at the target: instances %+d, queued messages %+d", cls, a.class, di, dq)
